@@ -59,7 +59,15 @@ def no_zero_width(s):
     return ("repeat", no_zero_width(s[1]), s[2])
 
 
+SHARED_PACKERS = [False]      # when set, equal leaf schemas are the SAME packer object (bound once to a name, used in several places)
+
+
 def schema_src(s):
+    if SHARED_PACKERS[0]:
+        if s[0] == "bool":
+            return "_pb"
+        if s[0] == "intmod":
+            return "_pm(%d)" % s[1]
     if s[0] == "bool":
         return "PackBool()"
     if s[0] == "intmod":
@@ -239,7 +247,12 @@ def worker(job):
             s = no_zero_width(s)          # secret zero-width fields are not supported by the library at all (DESIGN 6.7)
             v = gen_value(s, rnd)
         bool_as = rnd.choice(["PrivVal", "PrivVal", "PrivValBool"])
+        SHARED_PACKERS[0] = rnd.random() < 0.3
         ssrc = schema_src(s)
+        if SHARED_PACKERS[0]:
+            # one PackBool and one PackIntMod per modulus for the whole schema
+            ssrc = ssrc  # (names resolved by the prelude below)
+        SHARED_PACKERS[0], shared = False, SHARED_PACKERS[0]
         big = max([x[0][1] for x in leaves(s, v, []) if x[0][0] == "intmod"] + [2])
         if secret and big.bit_length() + 2 > bl:
             bl = big.bit_length() + 3      # the range check of unpack compares against the modulus at the global bitlength
@@ -253,14 +266,15 @@ def worker(job):
             m = lv[which][0][1]
             oob = rnd.choice([m, m + 1, -1] + ([(1 << (m - 1).bit_length()) - 1] if (1 << (m - 1).bit_length()) - 1 >= m else []))
             v = replace_leaf(s, v, which, oob)
-        src = "P = %s\nx = %s\nbits = P.pack(x)\nnb = P.bitlen()\ny = P.unpack(bits, 0)\n" % (ssrc, value_src(s, v, secret, [0, rnd.randrange(100)], bool_as))
+        prelude = "_pb = PackBool()\n_pmc = {}\ndef _pm(m):\n    if m not in _pmc: _pmc[m] = PackIntMod(m)\n    return _pmc[m]\n" if shared else ""
+        src = prelude + "P = %s\nx = %s\nbits = P.pack(x)\nnb = P.bitlen()\ny = P.unpack(bits, 0)\n" % (ssrc, value_src(s, v, secret, [0, rnd.randrange(100)], bool_as))
         if oob is None and secret is False and rnd.random() < 0.3:
             # values drawn by the schema's own random(): must be in range and round-trip
-            src = "P = %s\nx = P.random()\nbits = P.pack(x)\nnb = P.bitlen()\ny = P.unpack(bits, 0)\nassert y == x, (x, y)\n" % ssrc
+            src = prelude + "P = %s\nx = P.random()\nbits = P.pack(x)\nnb = P.bitlen()\ny = P.unpack(bits, 0)\nif y != x: raise ValueError((x, y))\n" % ssrc
             v = None
         out = G.run_api(G.Prog(src, [], bl, 0), [], N, modulus=p)
         key = (ssrc, repr(v), secret, bool_as, bl)
-        cell = "pack|%s|%s|%s" % (s[0], "mixed" if secret == "mixed" else ("secret" if secret else "plain"), "oob" if oob is not None else "in")
+        cell = "pack|%s|%s|%s%s" % (s[0], "mixed" if secret == "mixed" else ("secret" if secret else "plain"), "oob" if oob is not None else "in", "|shared-packers" if shared else "")
         R.case(cell=cell, key=key)
         det = dict(src=src, inputs=[], bl=bl, p=p)
         if oob is None:
